@@ -9,9 +9,7 @@
 #include <nstd/Socket/Server.hpp>
 
 #include "server/c13.h"
-#ifdef SERVER_WITH_C14
 #include "server/c14.h"
-#endif
 
 int main()
 {
@@ -22,9 +20,8 @@ int main()
     if(hxIs(l, "reset", 0))
     {
       c13Teardown();
-#ifdef SERVER_WITH_C14
       c14Teardown();
-#endif
+      ipMaskReset();
       ipEnvFail = false;
       ipSendLogLen = 0;
       ipVirtualClock = false;
@@ -34,16 +31,12 @@ int main()
       continue;
     }
     if(c13Op(l)) continue;
-#ifdef SERVER_WITH_C14
     if(c14Op(l)) continue;
-#endif
     printf("bad-op");
     hxEndLine();
   }
   c13Teardown();
-#ifdef SERVER_WITH_C14
   c14Teardown();
-#endif
   fprintf(stderr, "faults: wouldblock=%lu error=%lu partial=%lu full=%lu\n", ipFaultWb, ipFaultErr, ipFaultPartial, ipFaultFull);
   return 0;
 }
